@@ -17,6 +17,8 @@ import (
 type Frame struct {
 	Func string `json:"f"`
 	File string `json:"l"`
+	// NoIndent: the function line lacks the dump's uniform indentation (malformed).
+	NoIndent bool `json:"noind,omitempty"`
 }
 
 // Gor is one goroutine of a goroutine dump.
